@@ -289,7 +289,7 @@ def gen_cases(L: Layouts, own: List[int], imported: List[int], hdr_ci: int, rng:
             hf = [("msg_type", V_int(tid)), ("msg_count", V_int(7)), ("send_time", V_float(12.5)),
                   ("src_mod_id", V_int(11)), ("num_data_bytes", V_int(L.size(ci))), ("reserved", V_int(0 if rep else th)),
                   ("utc_seconds", V_int(rng.randint(1, 2 ** 32 - 1))), ("utc_fraction", V_int(rng.randint(1, 2 ** 32 - 1)))]
-            add(ci, sets, "timecode-header", hdr=dict(fields=[[n, val_json(v)] for n, v in hf], registry=[ci], minify=False,
+            add(ci, sets, "timecode-header", hdr=dict(fields=[[n, val_json(v)] for n, v in hf], registry=[ci], minify=bool(rep),
                                                       timecode=True, _fields=hf, _ver=0 if rep else th, _timecode=True))
         # unknown message type, NaN time stamp in the header
         hf = [("msg_type", V_int(tid + 5)), ("reserved", V_int(0))]
@@ -392,7 +392,14 @@ def oracle(case: dict, res: dict, lv: List[dict], hlv: List[dict], L: Layouts) -
         registered = any(n == "msg_type" and v[1] == L.lay[case["cls"]]["type_id"] for n, v in hd["_fields"])
         timecode = bool(hd.get("_timecode"))
         if timecode:
-            registered = False      # Message.from_json decodes with get_header_cls() = the plain class: no JSON claim
+            # header + data JSON round trip with the timecode header class (pretty and minified)
+            registered = False
+            if m["code"] != 0 or m.get("hdr_cls") != res.get("hdr_cls") or bytes.fromhex(m.get("hdr", "")) != horig \
+                    or bytes.fromhex(m.get("data", "")) != orig:
+                out.append(("json-timecode-header-fields-lost",
+                            f"{name}: Message.to_json -> Message.from_json of a message with a {res.get('hdr_cls')}: "
+                            + (f"raised {m.get('exc')}: {m.get('msg', '')[:120]}" if m["code"] != 0 else
+                               f"decoded a {m.get('hdr_cls')} header {m.get('hdr')} instead of {horig.hex()}")))
         if registered and ver != 0 and ver != th:
             if m["code"] != 11:
                 out.append(("version-mismatch-not-refused", f"{name}: header version {ver} != hash {th} decoded with code {m['code']}"))
